@@ -1128,3 +1128,429 @@ Proof.
   - intros Hi. rewrite E3. exact (rc_absent_refused_idle w2 req2 O2 U c Hi F2 L2 A2).
 Qed.
 End RCW.
+
+(* ================================================================================================ *)
+(* Part C: confirmation and recovery tokens under the wrapper                                       *)
+(* ================================================================================================ *)
+(* the wrapper touches the remember table only: under the router as mounted "storage is what it was"
+   reads "the user table is what it was" *)
+Section CW.
+Variable C : crypto.
+Variable cfg : config.
+Notation ENV w O req := (mkEnv C cfg O req (jar_get (q_browser req) (w_cook w)) (jar_get (q_browser req) (w_sess w))).
+
+(* C2: an absent token is refused *)
+Lemma confirm_absent_refused_w w req O :
+  q_route req = RConfirm ->
+  ctok_absent C (aget f_cnf (vals_of cfg req)) (w_st w) ->
+  s_users (w_st (fst (wstep C cfg w (AReq req) O))) = s_users (w_st w).
+Proof.
+  intros R Ab.
+  destruct (wstep_req_cut C cfg w req O) as (r & h & h1 & s2 & Sv & Ku & Kc & Fw & St & Jr). rewrite St, <- Ku.
+  set (E' := with_sess (ENV w O req) s2) in *.
+  destruct (route_confirm_cases E' R) as [RT|NH]; [|rewrite (serve_st_nohandler E' _ _ _ NH Sv); reflexivity].
+  destruct (serve_st_handler E' _ _ _ _ RT Sv) as (x & ha & CG & ->).
+  rewrite (confirm_reject_cases_lemma E' _ _ _ CG); [reflexivity|].
+  destruct (b64url_dec (aget f_cnf (values E'))) as [raw|] eqn:Dc; [|left; reflexivity].
+  right. exists raw. split; [reflexivity|]. right. left. apply ufind_none. intros k v Hin.
+  apply beqb_neq. rewrite Ku in Hin. exact (Ab raw Dc k v Hin).
+Qed.
+
+Lemma confirm_absent_refused_idle w req O :
+  wrapper_idle (ENV w O req) ->
+  q_route req = RConfirm ->
+  ctok_absent C (aget f_cnf (vals_of cfg req)) (w_st w) ->
+  w_st (fst (wstep C cfg w (AReq req) O)) = w_st w.
+Proof. intros Hi R Ab. rewrite (wstep_idle C cfg w req O Hi). exact (confirm_absent_refused C cfg w req O R Ab). Qed.
+
+Lemma recover_absent_refused_w w req O :
+  q_route req = RRecoverEnd ->
+  rtok_absent C (aget f_token (vals_of cfg req)) (w_st w) ->
+  s_users (w_st (fst (wstep C cfg w (AReq req) O))) = s_users (w_st w) /\
+  forall b V, alookup k_uid (jar_get b (w_sess (fst (wstep C cfg w (AReq req) O)))) = Some V ->
+              alookup k_uid (jar_get b (w_sess w)) = Some V \/ remembered C w req V.
+Proof.
+  intros R Ab.
+  destruct (wstep_req_cut C cfg w req O) as (r & h & h1 & s2 & Sv & Ku & Kc & Fw & St & Jr).
+  set (E' := with_sess (ENV w O req) s2) in *.
+  assert (NF : forall raw, b64url_dec (aget f_token (values E')) = Some raw ->
+                 ufind (fun u => beqb (u_rsel u) (selector_of E' raw)) (s_users (h_st h1)) = None).
+  { intros raw Dc. apply ufind_none. intros k v Hin. apply beqb_neq. rewrite Ku in Hin. exact (Ab raw Dc k v Hin). }
+  destruct (serve_events_after _ _ _ _ Sv) as (ls & Als).
+  assert (K : s_users (h_st h) = s_users (h_st h1) /\ Forall sess_neutral ls).
+  { destruct (serve_of_route E' h1 r h Sv) as [(hd & r0 & h0 & RT & Eq & S1 & S2)|(_ & S1 & S2)].
+    2:{ split; [rewrite S2; reflexivity|]. rewrite S1 in Als. rewrite <- (app_nil_r (h_sev h1)) in Als at 1.
+        apply app_inv_head in Als. subst ls. constructor. }
+    rewrite S1 in Als. rewrite S2.
+    destruct (route_recover_end_cases E' R) as [RT'|[RT'|NH]]; [| |exfalso; exact (NH hd RT)];
+      rewrite RT' in RT; inversion RT; subst hd.
+    - split; [rewrite (pres_st_recover_end_get E' _ _ _ Eq); reflexivity|].
+      destruct (neutral_recover_end_get E' _ _ _ Eq) as [(ls0 & lc & A1 & _ & Fn & _) _].
+      rewrite Als in A1. apply app_inv_head in A1. subst ls0. exact Fn.
+    - split.
+      + rewrite (recover_reject_unchanged_lemma E' _ _ _ Eq); [reflexivity|]. intros raw u Dc _ F _ _.
+        rewrite (NF raw Dc) in F. discriminate F.
+      + destruct (recover_end_no_record_neutral E' _ _ _ Eq NF) as (ls0 & A1 & Fn).
+        rewrite Als in A1. apply app_inv_head in A1. subst ls0. exact Fn. }
+  destruct K as (Ks & Kn). split; [rewrite St, Ks; exact Ku|].
+  intros b V H1. destruct (names_dec b V w) as [Y|N]; [left; exact Y|right].
+  destruct (Jr b) as [Eb|(pre & post & Hs & Eb)]; rewrite Eb in H1; [contradiction|].
+  assert (Hin : In (Put k_uid V) (h_sev h)) by (rewrite Hs; apply in_or_app; left; exact (apply_events_uid_change _ _ _ H1 N)).
+  rewrite Als in Hin. apply in_app_or in Hin as [Hin|Hin]; [exact (wrap_ev_put_uid _ _ _ Fw Hin)|].
+  exfalso. rewrite Forall_forall in Kn. apply (Kn _ Hin). reflexivity.
+Qed.
+
+Lemma recover_absent_refused_idle w req O :
+  wrapper_idle (ENV w O req) ->
+  q_route req = RRecoverEnd ->
+  rtok_absent C (aget f_token (vals_of cfg req)) (w_st w) ->
+  w_st (fst (wstep C cfg w (AReq req) O)) = w_st w /\
+  forall b V, alookup k_uid (jar_get b (w_sess (fst (wstep C cfg w (AReq req) O)))) = Some V ->
+              alookup k_uid (jar_get b (w_sess w)) = Some V.
+Proof. intros Hi R Ab. rewrite (wstep_idle C cfg w req O Hi). exact (recover_absent_refused C cfg w req O R Ab). Qed.
+
+(* C4: the accepting step clears the selector; with unique selectors nobody else carries it *)
+Lemma confirm_accepted_absent_w w req O :
+  q_route req = RConfirm ->
+  s_users (w_st (fst (wstep C cfg w (AReq req) O))) <> s_users (w_st w) ->
+  filed (w_st w) -> csel_unique (w_st w) ->
+  (forall raw, b64url_dec (aget f_cnf (vals_of cfg req)) = Some raw -> sha C (firstn 32 raw) <> []) ->
+  ctok_absent C (aget f_cnf (vals_of cfg req)) (w_st (fst (wstep C cfg w (AReq req) O))).
+Proof.
+  intros R Ch Fl Un Ne.
+  destruct (wstep_req_cut C cfg w req O) as (r & h & h1 & s2 & Sv & Ku & Kc & Fw & St & Jr). rewrite St in *.
+  set (E' := with_sess (ENV w O req) s2) in *.
+  destruct (route_confirm_cases E' R) as [RT|NH].
+  2:{ exfalso; apply Ch. rewrite (serve_st_nohandler E' _ _ _ NH Sv). exact Ku. }
+  destruct (serve_st_handler E' _ _ _ _ RT Sv) as (x & ha & CG & Hst). rewrite Hst in *.
+  destruct (confirm_get_cases E' _ _ _ CG) as [U|(raw & u & D & Ln & F & V & Sta)].
+  { exfalso; apply Ch. rewrite U. exact Ku. }
+  rewrite Ku in F.
+  pose proof (filedl_found _ _ _ Fl F) as Lu.
+  pose proof (ufind_sat _ _ _ F) as Su. apply beqb_eq in Su.
+  assert (SelNe : selector_of E' raw <> []) by (apply b64std_enc_nonempty; exact (Ne raw D)).
+  intros raw' D' k v Hin. change (b64url_dec (aget f_cnf (values E')) = Some raw') in D'.
+  rewrite D in D'. inversion D'; subst raw'. rewrite Sta in Hin. cbn [s_users set] in Hin. simpl in Hin. rewrite Ku in Hin.
+  apply uput_in_nodup in Hin as [Heq|[Hin Nk]]; [| |exact (proj1 Fl)].
+  - inversion Heq; subst. cbn. intros Hx. apply SelNe. symmetry. exact Hx.
+  - intros Hx. apply Nk. symmetry.
+    apply (Un (u_pid u) k u v Lu (in_ulookup _ _ _ (proj1 Fl) Hin)); [rewrite Su; exact SelNe|].
+    rewrite Su, Hx. reflexivity.
+Qed.
+
+Lemma recover_accepted_absent_w w req O :
+  q_route req = RRecoverEnd ->
+  s_users (w_st (fst (wstep C cfg w (AReq req) O))) <> s_users (w_st w) ->
+  filed (w_st w) -> rsel_unique (w_st w) ->
+  (forall raw, b64url_dec (aget f_token (vals_of cfg req)) = Some raw -> sha C (firstn 32 raw) <> []) ->
+  rtok_absent C (aget f_token (vals_of cfg req)) (w_st (fst (wstep C cfg w (AReq req) O))).
+Proof.
+  intros R Ch Fl Un Ne.
+  destruct (wstep_req_cut C cfg w req O) as (r & h & h1 & s2 & Sv & Ku & Kc & Fw & St & Jr). rewrite St in *.
+  set (E' := with_sess (ENV w O req) s2) in *.
+  assert (Fl1 : filed (h_st h1)) by (unfold filed; rewrite Ku; exact Fl).
+  destruct (route_recover_end_cases E' R) as [RT|[RT|NH]].
+  - exfalso. apply Ch. destruct (serve_st_handler E' _ _ _ _ RT Sv) as (x & ha & RG & ->).
+    rewrite (pres_st_recover_end_get E' _ _ _ RG). exact Ku.
+  - destruct (serve_st_handler E' _ _ _ _ RT Sv) as (x & ha & RP & Hst). rewrite Hst in *.
+    destruct (recover_end_cases E' _ _ _ RP) as [U|(raw & u & D & Ln & F & Ex & V & _ & _ & (su & B1 & B2) & Fr)].
+    { exfalso. apply Ch. rewrite U. exact Ku. }
+    rewrite Ku in F.
+    pose proof (filedl_found _ _ _ Fl F) as Lu.
+    pose proof (ufind_sat _ _ _ F) as Su. apply beqb_eq in Su.
+    destruct (keeps2fa_recover_end E' h1 _ _ Fl1 (ctx_ok_none h1 Kc) RP) as (Fl' & _ & _).
+    apply upto_lock_recovered in B2 as (_ & P1 & P2 & P3 & _).
+    assert (SelNe : selector_of E' raw <> []) by (apply b64std_enc_nonempty; exact (Ne raw D)).
+    intros raw' D' k v Hin. change (b64url_dec (aget f_token (values E')) = Some raw') in D'.
+    rewrite D in D'. inversion D'; subst raw'.
+    pose proof (in_ulookup _ _ _ (proj1 Fl') Hin) as Lv.
+    destruct (bytes_dec k (u_pid u)) as [->|Nk].
+    + rewrite B1 in Lv. inversion Lv; subst v. rewrite P2. intros Hx. apply SelNe. symmetry. exact Hx.
+    + rewrite Fr in Lv by exact Nk. rewrite Ku in Lv. intros Hx. apply Nk. symmetry.
+      apply (Un (u_pid u) k u v Lu Lv); [rewrite Su; exact SelNe|]. rewrite Su, Hx. reflexivity.
+  - exfalso. apply Ch. rewrite (serve_st_nohandler E' _ _ _ NH Sv). exact Ku.
+Qed.
+End CW.
+
+Section CWH.
+Variable C : crypto.
+Hypothesis laws : crypto_laws C.
+Variable cfg : config.
+Notation ENV w O req := (mkEnv C cfg O req (jar_get (q_browser req) (w_cook w)) (jar_get (q_browser req) (w_sess w))).
+
+(* C5 *)
+Lemma confirm_never_again_w_lemma w0 l1 r1 O1 l2 r2 O2 tok raw :
+  b64url_dec tok = Some raw -> sha C (firstn 32 raw) <> [] ->
+  let w1 := fst (wrun C cfg w0 l1) in
+  let w1' := fst (wrun C cfg w0 (l1 ++ [(AReq r1, O1)])) in
+  let w2 := fst (wrun C cfg w0 (l1 ++ (AReq r1, O1) :: l2)) in
+  let w3 := fst (wrun C cfg w0 (l1 ++ (AReq r1, O1) :: l2 ++ [(AReq r2, O2)])) in
+  q_route r1 = RConfirm -> aget f_cnf (vals_of cfg r1) = tok -> s_users (w_st w1') <> s_users (w_st w1) ->
+  filed (w_st w1) -> csel_unique (w_st w1) ->
+  Forall (fun ao => ~ ctok_exception C tok ao) l2 ->
+  q_route r2 = RConfirm -> aget f_cnf (vals_of cfg r2) = tok ->
+  ctok_absent C tok (w_st w2) /\ s_users (w_st w3) = s_users (w_st w2) /\
+  (wrapper_idle (ENV w2 O2 r2) -> w_st w3 = w_st w2).
+Proof using laws.
+  intros Dc Hne w1 w1' w2 w3 R1 T1 Ch Fl Un Q2 R2 T2.
+  assert (E1 : w1' = fst (wstep C cfg w1 (AReq r1) O1)).
+  { subst w1' w1. rewrite !wrun_grun. apply grun_snoc. }
+  assert (E2 : w2 = grun (wstep C cfg) w1' l2).
+  { subst w2 w1'. rewrite !wrun_grun, grun_mid, grun_snoc. reflexivity. }
+  assert (E3 : w3 = fst (wstep C cfg w2 (AReq r2) O2)).
+  { subst w3 w2. rewrite !wrun_grun. rewrite app_comm_cons, app_assoc. apply grun_snoc. }
+  assert (A1 : ctok_absent C tok (w_st w1')).
+  { rewrite E1, <- T1. apply confirm_accepted_absent_w; auto.
+    - rewrite <- E1. exact Ch.
+    - rewrite T1. intros raw' Dc'. rewrite Dc in Dc'. inversion Dc'; subst raw'. exact Hne. }
+  assert (A2 : ctok_absent C tok (w_st w2)).
+  { rewrite E2. exact (ctok_absent_wgrun C laws cfg tok raw Dc Hne l2 w1' Q2 A1). }
+  split; [exact A2|]. split.
+  - rewrite E3. apply confirm_absent_refused_w; [exact R2|]. rewrite T2. exact A2.
+  - intros Hi. rewrite E3. apply confirm_absent_refused_idle; [exact Hi|exact R2|]. rewrite T2. exact A2.
+Qed.
+
+Lemma recover_never_again_w_lemma w0 l1 r1 O1 l2 r2 O2 tok raw :
+  b64url_dec tok = Some raw -> sha C (firstn 32 raw) <> [] ->
+  let w1 := fst (wrun C cfg w0 l1) in
+  let w1' := fst (wrun C cfg w0 (l1 ++ [(AReq r1, O1)])) in
+  let w2 := fst (wrun C cfg w0 (l1 ++ (AReq r1, O1) :: l2)) in
+  let w3 := fst (wrun C cfg w0 (l1 ++ (AReq r1, O1) :: l2 ++ [(AReq r2, O2)])) in
+  q_route r1 = RRecoverEnd -> aget f_token (vals_of cfg r1) = tok -> s_users (w_st w1') <> s_users (w_st w1) ->
+  filed (w_st w1) -> rsel_unique (w_st w1) ->
+  Forall (fun ao => ~ rtok_exception C tok ao) l2 ->
+  q_route r2 = RRecoverEnd -> aget f_token (vals_of cfg r2) = tok ->
+  rtok_absent C tok (w_st w2) /\ s_users (w_st w3) = s_users (w_st w2) /\
+  (forall b V, alookup k_uid (jar_get b (w_sess w3)) = Some V ->
+               alookup k_uid (jar_get b (w_sess w2)) = Some V \/ remembered C w2 r2 V) /\
+  (wrapper_idle (ENV w2 O2 r2) ->
+   w_st w3 = w_st w2 /\
+   forall b V, alookup k_uid (jar_get b (w_sess w3)) = Some V -> alookup k_uid (jar_get b (w_sess w2)) = Some V).
+Proof using laws.
+  intros Dc Hne w1 w1' w2 w3 R1 T1 Ch Fl Un Q2 R2 T2.
+  assert (E1 : w1' = fst (wstep C cfg w1 (AReq r1) O1)).
+  { subst w1' w1. rewrite !wrun_grun. apply grun_snoc. }
+  assert (E2 : w2 = grun (wstep C cfg) w1' l2).
+  { subst w2 w1'. rewrite !wrun_grun, grun_mid, grun_snoc. reflexivity. }
+  assert (E3 : w3 = fst (wstep C cfg w2 (AReq r2) O2)).
+  { subst w3 w2. rewrite !wrun_grun. rewrite app_comm_cons, app_assoc. apply grun_snoc. }
+  assert (A1 : rtok_absent C tok (w_st w1')).
+  { rewrite E1, <- T1. apply recover_accepted_absent_w; auto.
+    - rewrite <- E1. exact Ch.
+    - rewrite T1. intros raw' Dc'. rewrite Dc in Dc'. inversion Dc'; subst raw'. exact Hne. }
+  assert (A2 : rtok_absent C tok (w_st w2)).
+  { rewrite E2. exact (rtok_absent_wgrun C laws cfg tok raw Dc Hne l2 w1' Q2 A1). }
+  split; [exact A2|].
+  assert (A2' : rtok_absent C (aget f_token (vals_of cfg r2)) (w_st w2)) by (rewrite T2; exact A2).
+  destruct (recover_absent_refused_w C cfg w2 r2 O2 R2 A2') as (K1 & K2).
+  split; [rewrite E3; exact K1|]. split; [rewrite E3; exact K2|].
+  intros Hi. rewrite E3. exact (recover_absent_refused_idle C cfg w2 r2 O2 Hi R2 A2').
+Qed.
+End CWH.
+
+(* ================================================================================================ *)
+(* Without the global wrapper: the statements of Props/C12d.v and Props/C05c.v, for [wrun] / [wstep] *)
+(* ================================================================================================ *)
+Lemma otp_never_again_w_unwrapped_lemma C cfg w0 l1 req1 O1 l2 req2 O2 U x :
+  c_wrap_remember cfg = false ->
+  filed (w_st w0) ->
+  otp_login_req cfg req1 U x -> otp_login_req cfg req2 U x ->
+  otp_unique C x U (w_st (fst (wrun C cfg w0 l1))) ->
+  accepted_for U (fst (wrun C cfg w0 l1)) (fst (wstep C cfg (fst (wrun C cfg w0 l1)) (AReq req1) O1)) ->
+  Forall (fun ao => ~ seeds U (fst ao) /\ ~ otp_add_may_hit C x (fst ao) (snd ao)) l2 ->
+  sess_untouched (fst (wrun C cfg w0 (l1 ++ (AReq req1, O1) :: l2)))
+                 (fst (wrun C cfg w0 (l1 ++ (AReq req1, O1) :: l2 ++ [(AReq req2, O2)]))) /\
+  refused_for U (fst (wrun C cfg w0 (l1 ++ (AReq req1, O1) :: l2)))
+                (fst (wrun C cfg w0 (l1 ++ (AReq req1, O1) :: l2 ++ [(AReq req2, O2)]))) /\
+  otp_absent C x U (w_st (fst (wrun C cfg w0 (l1 ++ (AReq req1, O1) :: l2)))).
+Proof.
+  intros Wf. rewrite !(wrun_unwrapped C cfg Wf), (wstep_unwrapped C cfg _ _ _ Wf).
+  exact (otp_never_again_lemma C cfg w0 l1 req1 O1 l2 req2 O2 U x).
+Qed.
+
+Lemma recovery_code_never_again_w_unwrapped_lemma C cfg w0 l1 req1 O1 l2 req2 O2 U c plain :
+  c_wrap_remember cfg = false ->
+  crypto_laws C -> filed (w_st w0) ->
+  rc_validate_req cfg req1 c -> rc_validate_req cfg req2 c ->
+  (forall u, ulookup U (s_users (w_st (fst (wrun C cfg w0 l1)))) = Some u ->
+     decode_codes (u_recovery u) = map (pwhash C) plain) ->
+  NoDup plain -> Forall pw_dom plain -> pw_dom c -> pwcheck C [] c = false ->
+  logged_in_as U (fst (wrun C cfg w0 l1)) (fst (wstep C cfg (fst (wrun C cfg w0 l1)) (AReq req1) O1)) ->
+  Forall (fun ao => ~ seeds U (fst ao) /\ ~ regen_may_hit C c (fst ao) (snd ao)) l2 ->
+  not_logged_in_as U (fst (wrun C cfg w0 (l1 ++ (AReq req1, O1) :: l2)))
+                     (fst (wrun C cfg w0 (l1 ++ (AReq req1, O1) :: l2 ++ [(AReq req2, O2)]))) /\
+  rc_absent C c U (w_st (fst (wrun C cfg w0 (l1 ++ (AReq req1, O1) :: l2)))).
+Proof.
+  intros Wf. rewrite !(wrun_unwrapped C cfg Wf), (wstep_unwrapped C cfg _ _ _ Wf).
+  exact (recovery_code_never_again_lemma C cfg w0 l1 req1 O1 l2 req2 O2 U c plain).
+Qed.
+
+Lemma confirm_never_again_w_unwrapped_lemma C (laws : crypto_laws C) cfg w0 l1 r1 O1 l2 r2 O2 tok raw :
+  c_wrap_remember cfg = false ->
+  b64url_dec tok = Some raw -> sha C (firstn 32 raw) <> [] ->
+  let w1 := fst (wrun C cfg w0 l1) in
+  let w1' := fst (wrun C cfg w0 (l1 ++ [(AReq r1, O1)])) in
+  let w2 := fst (wrun C cfg w0 (l1 ++ (AReq r1, O1) :: l2)) in
+  let w3 := fst (wrun C cfg w0 (l1 ++ (AReq r1, O1) :: l2 ++ [(AReq r2, O2)])) in
+  q_route r1 = RConfirm -> aget f_cnf (vals_of cfg r1) = tok -> w_st w1' <> w_st w1 ->
+  filed (w_st w1) -> csel_unique (w_st w1) ->
+  Forall (fun ao => ~ ctok_exception C tok ao) l2 ->
+  q_route r2 = RConfirm -> aget f_cnf (vals_of cfg r2) = tok ->
+  ctok_absent C tok (w_st w2) /\ w_st w3 = w_st w2.
+Proof.
+  intros Wf. cbv zeta. rewrite !(wrun_unwrapped C cfg Wf).
+  exact (confirm_never_again_lemma C laws cfg w0 l1 r1 O1 l2 r2 O2 tok raw).
+Qed.
+
+Lemma recover_never_again_w_unwrapped_lemma C (laws : crypto_laws C) cfg w0 l1 r1 O1 l2 r2 O2 tok raw :
+  c_wrap_remember cfg = false ->
+  b64url_dec tok = Some raw -> sha C (firstn 32 raw) <> [] ->
+  let w1 := fst (wrun C cfg w0 l1) in
+  let w1' := fst (wrun C cfg w0 (l1 ++ [(AReq r1, O1)])) in
+  let w2 := fst (wrun C cfg w0 (l1 ++ (AReq r1, O1) :: l2)) in
+  let w3 := fst (wrun C cfg w0 (l1 ++ (AReq r1, O1) :: l2 ++ [(AReq r2, O2)])) in
+  q_route r1 = RRecoverEnd -> aget f_token (vals_of cfg r1) = tok -> s_users (w_st w1') <> s_users (w_st w1) ->
+  filed (w_st w1) -> rsel_unique (w_st w1) ->
+  Forall (fun ao => ~ rtok_exception C tok ao) l2 ->
+  q_route r2 = RRecoverEnd -> aget f_token (vals_of cfg r2) = tok ->
+  rtok_absent C tok (w_st w2) /\ w_st w3 = w_st w2 /\
+  forall b V, alookup k_uid (jar_get b (w_sess w3)) = Some V -> alookup k_uid (jar_get b (w_sess w2)) = Some V.
+Proof.
+  intros Wf. cbv zeta. rewrite !(wrun_unwrapped C cfg Wf).
+  exact (recover_never_again_lemma C laws cfg w0 l1 r1 O1 l2 r2 O2 tok raw).
+Qed.
+
+(* ================================================================================================ *)
+(* Non-vacuity under the wrapper (executable crypto instance, computed): the histories of             *)
+(* OneTimeHistory.v / TokenHistory.v, run by the router as mounted with [c_wrap_remember := true]     *)
+(* ================================================================================================ *)
+Definition wox_cfg : config :=
+  mkConfig [MAuth; MOtp; MLogout] false false false false false false 3 300 3600 600 3600 (bs "/auth")
+           false false false DELETE GET false [] RespNotFound [] [] true false true.
+
+Lemma wox_witness :
+  exists C cfg w0 l1 req1 O1 l2 req2 (O2 : oracle) U x,
+    crypto_laws C /\ c_wrap_remember cfg = true /\ l2 <> [] /\
+    filed (w_st w0) /\ otp_login_req cfg req1 U x /\ otp_login_req cfg req2 U x /\
+    otp_unique C x U (w_st (fst (wrun C cfg w0 l1))) /\
+    accepted_for_w C U (fst (wrun C cfg w0 l1)) req1 (fst (wstep C cfg (fst (wrun C cfg w0 l1)) (AReq req1) O1)) /\
+    otp_quiet C U x l2 /\
+    (exists u, ulookup U (s_users (w_st (fst (wrun C cfg w0 (l1 ++ (AReq req1, O1) :: l2))))) = Some u /\
+               length (split_otps (u_otps u)) = 1%nat).
+Proof.
+  exists XC, wox_cfg, empty_world, ox_l1, (ox_login (bs "b1")), ox_oracle, ox_l2, (ox_login (bs "b2")), ox_oracle, ox_pid, ox_x.
+  split; [exact exec_laws|]. split; [reflexivity|]. split; [discriminate|].
+  split; [split; [constructor|intros k u []]|].
+  split; [repeat split|]. split; [repeat split|].
+  split.
+  { intros u Hu. vm_compute in Hu. inversion Hu; subst u. vm_compute. lia. }
+  split.
+  { exists (bs "b1"), k_uid. split; [left; reflexivity|]. split; [vm_compute; reflexivity|]. split; [vm_compute; discriminate|].
+    intros _ (ck & rw & Hk & _). vm_compute in Hk. discriminate Hk. }
+  split; [exact ox_quiet|].
+  eexists. split; [vm_compute; reflexivity|vm_compute; reflexivity].
+Qed.
+
+Definition wrx_cfg : config :=
+  mkConfig [MAuth; MLogout] false true false false true false 3 300 3600 600 3600 (bs "/auth")
+           false false false DELETE GET false [] RespNotFound [] [] true false true.
+
+Lemma wrx_witness :
+  exists C cfg w0 l1 req1 O1 l2 req2 (O2 : oracle) U c plain,
+    crypto_laws C /\ c_wrap_remember cfg = true /\ l2 <> [] /\ filed (w_st w0) /\
+    rc_validate_req cfg req1 c /\ rc_validate_req cfg req2 c /\
+    (forall u, ulookup U (s_users (w_st (fst (wrun C cfg w0 l1)))) = Some u ->
+       decode_codes (u_recovery u) = map (pwhash C) plain) /\
+    NoDup plain /\ Forall pw_dom plain /\ pw_dom c /\ pwcheck C [] c = false /\
+    logged_in_as U (fst (wrun C cfg w0 l1)) (fst (wstep C cfg (fst (wrun C cfg w0 l1)) (AReq req1) O1)) /\
+    ~ remembered C (fst (wrun C cfg w0 l1)) req1 U /\
+    rc_quiet C U c l2 /\
+    alookup k_totp_pending (jar_get (q_browser req2) (w_sess (fst (wrun C cfg w0 (l1 ++ (AReq req1, O1) :: l2))))) = Some U.
+Proof.
+  exists XC, wrx_cfg, empty_world, rx_l1, (rx_validate (bs "b1")), ox_oracle, rx_l2, (rx_validate (bs "b2")), ox_oracle,
+         ox_pid, rx_c, rx_plain.
+  split; [exact exec_laws|]. split; [reflexivity|]. split; [discriminate|].
+  split; [split; [constructor|intros k u []]|].
+  split; [split; [left; reflexivity|repeat split]|]. split; [split; [left; reflexivity|repeat split]|].
+  split.
+  { intros u Hu. vm_compute in Hu. inversion Hu; subst u. vm_compute. reflexivity. }
+  split.
+  { apply NoDup_cons; [intros [H|[]]; discriminate H|]. apply NoDup_cons; [intros []|apply NoDup_nil]. }
+  split; [repeat constructor; vm_compute; lia|]. split; [vm_compute; lia|]. split; [vm_compute; reflexivity|].
+  split.
+  { exists (bs "b1"). split; [vm_compute; reflexivity|vm_compute; discriminate]. }
+  split.
+  { intros (ck & rw & Hk & _). vm_compute in Hk. discriminate Hk. }
+  split.
+  { unfold rc_quiet, rx_l2. repeat constructor; cbn [fst snd seeds regen_may_hit]; try tauto.
+    - intros (([R|[R|R]] & _) & _); discriminate R.
+    - intros (([R|[R|R]] & _) & _); discriminate R. }
+  vm_compute. reflexivity.
+Qed.
+
+Definition wbx_cfg : config :=
+  mkConfig [MAuth; MConfirm; MRecover] false false false false false false 3 300 3600 600 3600 (bs "/auth")
+           false false false DELETE GET false [] RespNotFound [] [] true false true.
+
+Lemma wbx_confirm_witness :
+  exists C cfg w0 l1 r1 O1 l2 r2 tok raw,
+    crypto_laws C /\ c_wrap_remember cfg = true /\ b64url_dec tok = Some raw /\ sha C (firstn 32 raw) <> [] /\
+    q_route r1 = RConfirm /\ aget f_cnf (vals_of cfg r1) = tok /\
+    s_users (w_st (fst (wrun C cfg w0 (l1 ++ [(AReq r1, O1)])))) <> s_users (w_st (fst (wrun C cfg w0 l1))) /\
+    filed (w_st (fst (wrun C cfg w0 l1))) /\ csel_unique (w_st (fst (wrun C cfg w0 l1))) /\
+    Forall (fun ao => ~ ctok_exception C tok ao) l2 /\ l2 <> [] /\
+    q_route r2 = RConfirm /\ aget f_cnf (vals_of cfg r2) = tok.
+Proof.
+  exists XC, wbx_cfg, empty_world, bx_l1c, (bx_confirm (bs "b1")), (nx_oracle []), bx_l2, (bx_confirm (bs "b2")),
+         bx_tok1, bx_c1.
+  assert (Hs : exists u, s_users (w_st (fst (wrun XC wbx_cfg empty_world bx_l1c))) = [(hx_pid, u)] /\ u_pid u = hx_pid).
+  { eexists. split; vm_compute; reflexivity. }
+  destruct Hs as (u & Hs & Hp).
+  split; [exact exec_laws|]. split; [reflexivity|]. split; [vm_compute; reflexivity|]. split; [vm_compute; discriminate|].
+  split; [reflexivity|]. split; [reflexivity|]. split.
+  { intros Hx. apply (f_equal (map (fun ku => u_confirmed (snd ku)))) in Hx.
+    vm_compute in Hx. discriminate Hx. }
+  split; [unfold filed; rewrite Hs; exact (single_filed _ _ Hp)|].
+  split; [exact (proj1 (single_unique _ _ _ Hs))|].
+  split.
+  { repeat constructor. intros (raw & Dc & Hr). cbn [fst snd] in Hr.
+    assert (raw = bx_c1) by (vm_compute in Dc; inversion Dc; reflexivity). subst raw.
+    destruct Hr as [(c & [] & _)|Hr]. vm_compute in Hr. discriminate Hr. }
+  split; [discriminate|]. split; reflexivity.
+Qed.
+
+Lemma wbx_recover_witness :
+  exists C cfg w0 l1 r1 O1 l2 r2 tok raw,
+    crypto_laws C /\ c_wrap_remember cfg = true /\ b64url_dec tok = Some raw /\ sha C (firstn 32 raw) <> [] /\
+    q_route r1 = RRecoverEnd /\ aget f_token (vals_of cfg r1) = tok /\
+    s_users (w_st (fst (wrun C cfg w0 (l1 ++ [(AReq r1, O1)])))) <> s_users (w_st (fst (wrun C cfg w0 l1))) /\
+    filed (w_st (fst (wrun C cfg w0 l1))) /\ rsel_unique (w_st (fst (wrun C cfg w0 l1))) /\
+    Forall (fun ao => ~ rtok_exception C tok ao) l2 /\ l2 <> [] /\
+    q_route r2 = RRecoverEnd /\ aget f_token (vals_of cfg r2) = tok.
+Proof.
+  exists XC, wbx_cfg, empty_world, bx_l1r, (bx_rend (bs "b1") (bs "Newpassw0rd!")), (nx_oracle []), bx_l2,
+         (bx_rend (bs "b2") (bs "An0therpass!")), bx_tok2, bx_c2.
+  assert (Hs : exists u, s_users (w_st (fst (wrun XC wbx_cfg empty_world bx_l1r))) = [(hx_pid, u)] /\ u_pid u = hx_pid).
+  { eexists. split; vm_compute; reflexivity. }
+  destruct Hs as (u & Hs & Hp).
+  split; [exact exec_laws|]. split; [reflexivity|]. split; [vm_compute; reflexivity|]. split; [vm_compute; discriminate|].
+  split; [reflexivity|]. split; [reflexivity|]. split.
+  { intros Hx. apply (f_equal (map (fun ku => u_rsel (snd ku)))) in Hx.
+    vm_compute in Hx. discriminate Hx. }
+  split; [unfold filed; rewrite Hs; exact (single_filed _ _ Hp)|].
+  split; [exact (proj2 (single_unique _ _ _ Hs))|].
+  split.
+  { repeat constructor. intros (raw & Dc & Hr). cbn [fst snd] in Hr.
+    assert (raw = bx_c2) by (vm_compute in Dc; inversion Dc; reflexivity). subst raw.
+    destruct Hr as [(c & [] & _)|Hr]. vm_compute in Hr. discriminate Hr. }
+  split; [discriminate|]. split; reflexivity.
+Qed.
+
+Lemma consumption_establishes_absent_w_lemma C cfg w req O U x :
+  filed (w_st w) -> otp_login_req cfg req U x -> otp_unique C x U (w_st w) ->
+  accepted_for_w C U w req (fst (wstep C cfg w (AReq req) O)) ->
+  otp_absent C x U (w_st (fst (wstep C cfg w (AReq req) O))).
+Proof.
+  intros F L Un Acc.
+  exact (consumption_establishes_absent_w C cfg w req O U x F L Un (accepted_w_touched C U w req _ Acc)).
+Qed.
